@@ -30,13 +30,29 @@ def seq(x):
     return [] if x in ({}, None) else x
 
 
-def call(fn, *a, **kw):
+def call1(fn, *a, **kw):
     try:
         return ('ok', fn(*a, **kw))
     except ValueError:
         return ('ValueError', None)
     except Exception as e:
         return ('EXC:' + type(e).__name__, None)
+
+
+def call(fn, *a, **kw):
+    """The answer is a function of the arguments: the caller owns the list it gets.  Ask, edit the answer in place,
+    ask again - the second answer must be what the first one was."""
+    r1 = call1(fn, *a, **kw)
+    if r1[0] != 'ok' or not isinstance(r1[1], list):
+        return r1
+    first = list(r1[1])
+    r1[1].append('<appended by the caller>')
+    if len(r1[1]) > 1:
+        r1[1][0] = '<edited by the caller>'
+    r2 = call1(fn, *a, **kw)
+    if r2 != ('ok', first):
+        return ('ok', r2[1]) if r2[0] == 'ok' else r2
+    return ('ok', first)
 
 
 # ---- split_path ---------------------------------------------------------------------
